@@ -148,10 +148,20 @@ func errForwarders(s ssa.CallInstruction) map[ssa.Instruction]bool {
 			}
 		}
 	}
+	for _, e := range errVals {
+		valueForwarders(e, out, 0)
+	}
+	return out
+}
+
+// valueForwarders adds to out the instructions that hand value v on (see errForwarders). Passing v to a
+// statically resolved first-party helper counts when the helper hands its parameter on along every
+// path to its return (e.g. a non-blocking send wrapped in a function).
+func valueForwarders(v0 ssa.Value, out map[ssa.Instruction]bool, depth int) {
 	seen := map[ssa.Value]bool{}
 	var walk func(v ssa.Value, d int)
 	walk = func(v ssa.Value, d int) {
-		if seen[v] || d > 8 {
+		if seen[v] || d > 8 || v.Referrers() == nil {
 			return
 		}
 		seen[v] = true
@@ -180,6 +190,22 @@ func errForwarders(s ssa.CallInstruction) map[ssa.Instruction]bool {
 				// wrapping (fmt.Errorf("%w")) keeps the error alive: follow the wrapper's result
 				if n := engine.CalleeName(x); n == "fmt.Errorf" || n == "errors.Join" {
 					walk(x, d+1)
+				}
+				if h := x.Call.StaticCallee(); h != nil && len(h.Blocks) > 0 && depth < 3 {
+					for i, a := range x.Call.Args {
+						if a != v || i >= len(h.Params) {
+							continue
+						}
+						inner := map[ssa.Instruction]bool{}
+						valueForwarders(h.Params[i], inner, depth+1)
+						if len(inner) == 0 {
+							continue
+						}
+						isRet := func(in ssa.Instruction) bool { _, r := in.(*ssa.Return); return r && in.Parent() == h }
+						if dropped, _ := engine.PathExists(h, nil, isRet, engine.PathQuery{CutInstr: func(in ssa.Instruction) bool { return inner[in] }}); !dropped {
+							out[x] = true
+						}
+					}
 				}
 			case *ssa.Slice:
 				walk(x, d+1)
@@ -211,10 +237,7 @@ func errForwarders(s ssa.CallInstruction) map[ssa.Instruction]bool {
 			}
 		}
 	}
-	for _, e := range errVals {
-		walk(e, 0)
-	}
-	return out
+	walk(v0, 0)
 }
 
 // requireNoDroppedErrors emits one obligation per function.
